@@ -222,4 +222,580 @@ for k in range(max(N // 10, 10)):
             fail("align", f"{cl.__name__}.from_align_vectors does not map initial onto other for an exact rotation",
                  {"q": q, "v": v.data.tolist()})
 
+set_backend(True)
+
+# ======================================================================================
+# Audit strata.  Each block covers an entry point / keyword path / input class /
+# parameter combination of the property's quantifier that the blocks above never reach.
+# Reference throughout: the SIGNED 3x3 matrix of a (possibly improper) rotation computed
+# with plain numpy from the quaternion components (qmat/smat below; not orix code).
+# Products of rotations <-> matrix products, ~ <-> transpose, unary minus <-> -S,
+# action on a vector <-> S @ v ("proper part followed by inversion").
+# ======================================================================================
+import dask  # noqa: E402
+from diffpy.structure import Lattice, Structure  # noqa: E402
+
+from orix.quaternion.symmetry import D3d  # noqa: E402
+
+dask.config.set(scheduler="synchronous")   # tiny arrays: the thread pool only adds latency to lazy=True calls
+REPS = max(1, N // 240)
+MODES = ["none", "mixed", "all"]
+PH_CUB = Phase(point_group="m-3m")
+PH_HEX = Phase(point_group="6/mmm", structure=Structure(lattice=Lattice(3.2, 3.2, 5.1, 90, 90, 120)))
+
+
+def qmat(q):
+    q = np.asarray(q, float)
+    a, b, c, d = np.moveaxis(q, -1, 0)
+    return np.stack([
+        np.stack([a * a + b * b - c * c - d * d, 2 * (b * c - a * d), 2 * (b * d + a * c)], -1),
+        np.stack([2 * (b * c + a * d), a * a - b * b + c * c - d * d, 2 * (c * d - a * b)], -1),
+        np.stack([2 * (b * d - a * c), 2 * (c * d + a * b), a * a - b * b - c * c + d * d], -1)], -2)
+
+
+def ham(p, q):
+    """Hamilton product with broadcasting, plain numpy"""
+    p, q = np.asarray(p, float), np.asarray(q, float)
+    a1, b1, c1, d1 = np.moveaxis(p, -1, 0)
+    a2, b2, c2, d2 = np.moveaxis(q, -1, 0)
+    return np.stack([a1 * a2 - b1 * b2 - c1 * c2 - d1 * d2,
+                     a1 * b2 + b1 * a2 + c1 * d2 - d1 * c2,
+                     a1 * c2 - b1 * d2 + c1 * a2 + d1 * b2,
+                     a1 * d2 + b1 * c2 - c1 * b2 + d1 * a2], -1)
+
+
+def smat(r):
+    return np.where(np.asarray(r.improper, bool)[..., None, None], -1.0, 1.0) * qmat(r.data[..., :4])
+
+
+def outer_mm(SA, SB):
+    sa, sb = SA.shape[:-2], SB.shape[:-2]
+    return (SA.reshape(-1, 1, 3, 3) @ SB.reshape(1, -1, 3, 3)).reshape(sa + sb + (3, 3))
+
+
+def outer_mv(SA, V):
+    sa, sb = SA.shape[:-2], V.shape[:-1]
+    return np.einsum("aij,bj->abi", SA.reshape(-1, 3, 3), np.asarray(V, float).reshape(-1, 3)).reshape(sa + sb + (3,))
+
+
+def is_rot(X, S, tol=1e-8):
+    """X (Rotation-like) is the array of signed matrices S, with unit quaternions"""
+    return (tuple(X.shape) == tuple(S.shape[:-2]) and X.improper.shape == tuple(X.shape)
+            and close(smat(X), S, tol) and close(np.sum(X.data[..., :4] ** 2, -1), np.ones(X.shape), 1e-9))
+
+
+def is_vec(W, ref, tol=1e-8):
+    return tuple(W.shape) == tuple(ref.shape[:-1]) and close(W.data, ref, tol)
+
+
+def flags_for(shape, mode):
+    n = int(np.prod(shape))
+    if mode == "none":
+        f = [False] * n
+    elif mode == "all":
+        f = [True] * n
+    else:
+        f = [R.random() < 0.5 for _ in range(n)]
+        if n >= 2 and len(set(f)) == 1:          # really mixed
+            f[R.randrange(n)] = not f[0]
+    return np.array(f, bool).reshape(shape)
+
+
+def mk_rot_mode(shape, mode, cls=Rotation, **kw):
+    rot = mk_rot(shape, mixed=False)
+    if cls is not Rotation:
+        rot = cls(rot, **kw)
+    rot.improper = flags_for(shape, mode)
+    return rot
+
+
+def mk_miller(shape, k):
+    n = int(np.prod(shape))
+    v = np.array([rand_vec(R, R.choice([0.1, 1, 7])) for _ in range(n)]).reshape(shape + (3,))
+    ph, fmts = [(PH_CUB, ["xyz", "uvw", "hkl"]), (PH_HEX, ["UVTW", "hkil", "uvw", "hkl"])][k % 2]
+    m = Miller(xyz=v, phase=ph)
+    m.coordinate_format = fmts[(k // 2) % len(fmts)]
+    return m
+
+
+def miller_ok(W, V):
+    return isinstance(W, Miller) and W.phase is V.phase and W.coordinate_format == V.coordinate_format
+
+
+def guarded(sig, what, rep, fn):
+    """run fn(); an exception on a valid input is itself an oracle failure"""
+    try:
+        return fn()
+    except Exception as e:  # noqa
+        fail(sig + ":raises", f"{what}: raises {type(e).__name__}: {e}", rep)
+        return None
+
+
+# ------------------- (1) improper flags of the two operands drawn INDEPENDENTLY
+# none/mixed/all for the left operand x none/mixed/all for the right one, cycled over
+# every broadcastable shape pair in both orders, for *, outer, ~, -, inv() and vectors
+k = 0
+for _rep in range(REPS):
+    for (ma, mb), (p0, swap) in zip(itertools.cycle(itertools.product(MODES, MODES)),
+                                    itertools.product(BPAIRS, (False, True))):
+        k += 1
+        backend = k % 3 != 0
+        set_backend(backend)
+        sa, sb = (p0[1], p0[0]) if swap else p0
+        A, B = mk_rot_mode(sa, ma), mk_rot_mode(sb, mb)
+        V = mk_vec(sb)
+        SA, SB = smat(A), smat(B)
+        rep = {"A": rot_json(A), "B": rot_json(B), "V": V.data.tolist(), "backend": backend, "modes": [ma, mb]}
+        st(f"flags/{ma}x{mb}")
+        C = guarded("flags:mul-rot", f"R1*R2 shapes {sa},{sb}", rep, lambda: A * B)
+        if C is not None and not (is_rot(C, SA @ SB) and np.array_equal(
+                C.improper, np.logical_xor(*np.broadcast_arrays(A.improper, B.improper)))):
+            fail("flags:mul-rot", f"R1*R2 is not the product of the signed matrices / xor of the flags "
+                 f"(flags {ma} x {mb}, shapes {sa},{sb})", rep)
+        W = guarded("flags:mul-vec", f"R*v shapes {sa},{sb}", rep, lambda: A * V)
+        if W is not None and not is_vec(W, np.einsum("...ij,...j->...i", SA, V.data)):
+            fail("flags:mul-vec", f"R*v is not (proper part, then inversion) (flags {ma}, shapes {sa},{sb})", rep)
+        if C is not None and W is not None:
+            lhs, rhs = (A * B) * V, A * (B * V)
+            if not (close(lhs.data, rhs.data, 1e-8) and is_vec(lhs, np.einsum("...ij,...j->...i", SA @ SB, V.data))):
+                fail("flags:compose", f"(R1*R2)*v != R1*(R2*v) (flags {ma} x {mb}, shapes {sa},{sb})", rep)
+        Co = guarded("flags:outer-rot", f"R1.outer(R2) shapes {sa},{sb}", rep, lambda: A.outer(B))
+        if Co is not None and not is_rot(Co, outer_mm(SA, SB)):
+            fail("flags:outer-rot", f"R1.outer(R2) is not the pairwise product indexed self.shape+other.shape "
+                 f"(flags {ma} x {mb}, shapes {sa},{sb})", rep)
+        Wo = guarded("flags:outer-vec", f"R.outer(v) shapes {sa},{sb}", rep, lambda: A.outer(V))
+        if Wo is not None and not is_vec(Wo, outer_mv(SA, V.data)):
+            fail("flags:outer-vec", f"R.outer(v) is not the pairwise action (flags {ma}, shapes {sa},{sb})", rep)
+        for nm, X, S in (("invert", ~A, np.swapaxes(SA, -1, -2)), ("inv", A.inv(), np.swapaxes(SA, -1, -2)),
+                         ("neg", -A, -SA), ("inv-of-product", ~(A * B) if C is not None else ~A,
+                                           np.swapaxes(SA @ SB if C is not None else SA, -1, -2))):
+            if not is_rot(X, S):
+                fail(f"flags:{nm}", f"{nm} of rotations with flags {ma} (x {mb}) is not the inverse/negated signed matrix", rep)
+set_backend(True)
+
+# ------------------- (2) lazy=True (dask einsum formulas), chunk sizes below/above the axis
+# lengths, progressbar on/off; rotations, quaternions, vectors, Miller; vs numpy reference
+LZ = [((3,), (4,)), ((2, 3), (3,)), ((3,), (2, 3)), ((2, 3), (3, 2)), ((2, 1, 3), (1, 4)), ((1,), (5,)),
+      ((5, 1), (1, 1)), ((4,), (1,)), ((2, 2, 2), (2,)), ((0,), (3,)), ((3,), (0,)), ((2, 0), (2,))]
+k = 0
+for _rep in range(REPS):
+    for (sa, sb), (ma, mb) in zip(LZ * 2, itertools.cycle(itertools.product(MODES, MODES))):
+        k += 1
+        backend = k % 2 == 0
+        set_backend(backend)
+        cs = [1, 2, 20][k % 3]
+        pb = k % 5 == 0
+        A, B = mk_rot_mode(sa, ma), mk_rot_mode(sb, mb)
+        miller = k % 3 == 1
+        V = mk_miller(sb, k) if miller else mk_vec(sb)
+        SA, SB = smat(A), smat(B)
+        rep = {"A": rot_json(A), "B": rot_json(B), "V": V.data.tolist(), "chunk_size": cs, "progressbar": pb,
+               "backend": backend}
+        st(f"lazy/ndim={len(sa)}x{len(sb)}/chunk={cs}/pb={pb}/miller={miller}")
+        C = guarded("lazy:outer-rot", f"R1.outer(R2, lazy=True, chunk_size={cs}) shapes {sa},{sb}", rep,
+                    lambda: A.outer(B, lazy=True, chunk_size=cs, progressbar=pb))
+        if C is not None:
+            E = A.outer(B)
+            if not (is_rot(C, outer_mm(SA, SB)) and type(C) is type(E) and close(C.data, E.data, 1e-9)
+                    and np.array_equal(C.improper, E.improper)):
+                fail("lazy:outer-rot", f"R1.outer(R2, lazy=True, chunk_size={cs}) is not the pairwise product / differs "
+                     f"from lazy=False for shapes {sa},{sb}", rep)
+        W = guarded("lazy:outer-vec", f"R.outer(v, lazy=True, chunk_size={cs}) shapes {sa},{sb}", rep,
+                    lambda: A.outer(V, lazy=True, chunk_size=cs, progressbar=pb))
+        if W is not None:
+            E = A.outer(V)
+            if not (is_vec(W, outer_mv(SA, V.data)) and type(W) is type(E) and close(W.data, E.data, 1e-8)):
+                fail("lazy:outer-vec", f"R.outer(v, lazy=True, chunk_size={cs}) is not the pairwise action / differs "
+                     f"from lazy=False for shapes {sa},{sb}", rep)
+            if miller and not miller_ok(W, V):
+                fail("lazy:miller-meta", "outer(lazy=True) with Miller loses phase/coordinate format", rep)
+        # plain Quaternion class (non-unit allowed for the Hamilton product; unit for vectors)
+        n1, n2 = int(np.prod(sa)), int(np.prod(sb))
+        p = np.array([rand_unit_quat(R) for _ in range(n1)]).reshape(sa + (4,)) * ([1.0, 0.3, 2.5][k % 3])
+        q = np.array([rand_unit_quat(R) for _ in range(n2)]).reshape(sb + (4,)) * ([1.0, 1.7, 0.4][(k // 3) % 3])
+        P, Q = Quaternion(p), Quaternion(q)
+        href = ham(p.reshape(sa + (1,) * len(sb) + (4,)), q)
+        rep = {"p": p.tolist(), "q": q.tolist(), "chunk_size": cs, "backend": backend}
+        for lazy in ((False, True) if (k // 3) % 2 == 0 else (False,)):   # dask calls cost ~0.1-0.3 s each
+            X = guarded("quat:outer", f"Quaternion.outer(Quaternion, lazy={lazy}) shapes {sa},{sb}", rep,
+                        lambda: P.outer(Q, lazy=lazy, chunk_size=cs, progressbar=False))
+            if X is not None and not (type(X) is Quaternion and X.shape == sa + sb and close(X.data, href, 1e-9)):
+                fail("quat:outer", f"Quaternion.outer(Quaternion, lazy={lazy}) is not the pairwise Hamilton product "
+                     f"indexed self.shape+other.shape for shapes {sa},{sb}", rep)
+            Pu = Quaternion(p).unit
+            X = guarded("quat:outer-vec", f"Quaternion.outer(Vector3d, lazy={lazy}) shapes {sa},{sb}", rep,
+                        lambda: Pu.outer(V, lazy=lazy, chunk_size=cs, progressbar=False))
+            if X is not None and not is_vec(X, outer_mv(qmat(Pu.data), V.data)):
+                fail("quat:outer-vec", f"Quaternion.outer(vectors, lazy={lazy}) is not the pairwise rotation for {sa},{sb}",
+                     {**rep, "V": V.data.tolist()})
+        if n1:
+            I = P * ~P
+            I2 = P.inv() * P
+            one = np.broadcast_to([1.0, 0, 0, 0], sa + (4,))
+            if not (close(I.data, one, 1e-9) and close(I2.data, one, 1e-9)):
+                fail("quat:inverse", "Q * ~Q / Q.inv() * Q is not the identity quaternion (non-unit Q)", rep)
+set_backend(True)
+
+# ------------------- (3) empty objects (explicit in the quantifier) in every operation
+EMPTY = [((0,), (0,)), ((0,), (1,)), ((1,), (0,)), ((2, 0), (2, 0)), ((2, 0), (1,)), ((2, 0), (2, 1)), ((0, 3), (3,)),
+         ((1, 1), (0,))]
+for k, (sa, sb) in enumerate(EMPTY * 2):
+    backend = k >= len(EMPTY)
+    set_backend(backend)
+    A, B, V = mk_rot_mode(sa, "mixed"), mk_rot_mode(sb, "mixed"), mk_vec(sb)
+    if k % 4 == 0 and sa == (0,):
+        A = Rotation.empty()
+    rep = {"sa": sa, "sb": sb, "backend": backend}
+    st("empty")
+    bs = np.broadcast_shapes(sa, sb)
+    for nm, fn, shp, typ in (("mul-rot", lambda: A * B, bs, Rotation), ("mul-vec", lambda: A * V, bs, Vector3d),
+                             ("outer-rot", lambda: A.outer(B), sa + sb, Rotation),
+                             ("outer-vec", lambda: A.outer(V), sa + sb, Vector3d),
+                             ("outer-rot-lazy", lambda: A.outer(B, lazy=True, progressbar=False), sa + sb, Rotation),
+                             ("outer-vec-lazy", lambda: A.outer(V, lazy=True, progressbar=False), sa + sb, Vector3d),
+                             ("invert", lambda: ~A, sa, Rotation), ("inv", lambda: A.inv(), sa, Rotation),
+                             ("neg", lambda: -A, sa, Rotation)):
+        X = guarded(f"empty:{nm}", f"{nm} with empty operands of shapes {sa},{sb}", rep, fn)
+        if X is None:
+            continue
+        ok = isinstance(X, typ) and tuple(X.shape) == tuple(shp)
+        if ok and typ is Rotation:
+            ok = X.improper.shape == tuple(shp)
+        if not ok:
+            fail(f"empty:{nm}", f"{nm} with empty operands of shapes {sa},{sb} does not return an empty "
+                 f"{typ.__name__} of shape {tuple(shp)} (got {type(X).__name__} {getattr(X, 'shape', None)})", rep)
+set_backend(True)
+
+# ------------------- (4) operand classes drawn INDEPENDENTLY for left and right:
+# Rotation / Orientation / Misorientation / Symmetry (group elements, incl. improper
+# groups); class-specific overrides of ~, -, inv(); vectors and Miller (cubic, hexagonal)
+SYMS = [Oh, D6, D3d]
+
+
+def mk_cls(name, shape, mode, j):
+    n = int(np.prod(shape))
+    if name == "Symmetry":
+        g = SYMS[j % 3]
+        return g[np.array([R.randrange(g.size) for _ in range(n)])].reshape(*shape)
+    if name == "Orientation":
+        return mk_rot_mode(shape, mode, Orientation, symmetry=SYMS[j % 3])
+    if name == "Misorientation":
+        return mk_rot_mode(shape, mode, Misorientation, symmetry=(SYMS[j % 3], SYMS[(j + 1) % 3]))
+    return mk_rot_mode(shape, mode)
+
+
+CLS = ["Rotation", "Orientation", "Misorientation", "Symmetry"]
+CSHAPES = [((4,), (4,)), ((3, 1), (1, 2)), ((2, 3), (3,)), ((1,), (2, 2))]
+k = 0
+for _rep in range(REPS):
+    for (la, lb), (ma, mb) in zip(itertools.product(CLS, CLS), itertools.cycle(itertools.product(MODES[1:], MODES))):
+        for backend in (True, False):
+            k += 1
+            set_backend(backend)
+            sa, sb = CSHAPES[k % len(CSHAPES)]
+            A, B = mk_cls(la, sa, ma, k), mk_cls(lb, sb, mb, k // 3)
+            V = mk_miller(sb, k) if k % 2 else mk_vec(sb)
+            SA, SB = smat(A), smat(B)
+            rep = {"left": la, "right": lb, "A": rot_json(A), "B": rot_json(B), "V": V.data.tolist(), "backend": backend}
+            st(f"classes/{la}*{lb}")
+            C = guarded(f"class:mul/{la}*{lb}", f"{la} * {lb}", rep, lambda: A * B)
+            if C is not None and not is_rot(C, SA @ SB):
+                fail(f"class:mul/{la}*{lb}", f"{la} * {lb} is not the product of the signed matrices", rep)
+            Co = guarded(f"class:outer/{la}*{lb}", f"{la}.outer({lb})", rep, lambda: A.outer(B))
+            if Co is not None and not is_rot(Co, outer_mm(SA, SB)):
+                fail(f"class:outer/{la}*{lb}", f"{la}.outer({lb}) is not the pairwise product indexed self.shape+other.shape", rep)
+            Cl = guarded(f"class:outer-lazy/{la}*{lb}", f"{la}.outer({lb}, lazy=True)", rep,
+                         lambda: A.outer(B, lazy=True, chunk_size=2, progressbar=False))
+            if Cl is not None and not is_rot(Cl, outer_mm(SA, SB)):
+                fail(f"class:outer-lazy/{la}*{lb}", f"{la}.outer({lb}, lazy=True) is not the pairwise product", rep)
+            for nm, fn, S in (("invert", lambda: ~A, np.swapaxes(SA, -1, -2)), ("inv", lambda: A.inv(), np.swapaxes(SA, -1, -2)),
+                              ("neg", lambda: -A, -SA)):
+                X = guarded(f"class:{nm}/{la}", f"{nm} of {la}", rep, fn)
+                if X is not None and not (is_rot(X, S) and type(X) is type(A)):
+                    fail(f"class:{nm}/{la}", f"{nm} of a {la} is not the inverse / negated signed matrix of the same class", rep)
+            I = guarded(f"class:inverse/{la}", f"{la} * ~{la}", rep, lambda: A * ~A)
+            if I is not None and not is_rot(I, np.broadcast_to(np.eye(3), sa + (3, 3))):
+                fail(f"class:inverse/{la}", f"X * ~X is not the (proper) identity for a {la}", rep)
+            vk = "Miller" if isinstance(V, Miller) else "Vector3d"
+            W = guarded(f"class:mul-vec/{lb}", f"{lb} * {vk}", rep, lambda: B * V)
+            if W is not None and not (is_vec(W, np.einsum("...ij,...j->...i", SB, V.data)) and (vk != "Miller" or miller_ok(W, V))):
+                fail(f"class:mul-vec/{lb}", f"{lb} * {vk} is not (proper part, then inversion) or loses the phase/format", rep)
+            Wo = guarded(f"class:outer-vec/{la}", f"{la}.outer({vk})", rep, lambda: A.outer(V))
+            if Wo is not None and not (is_vec(Wo, outer_mv(SA, V.data)) and (vk != "Miller" or miller_ok(Wo, V))):
+                fail(f"class:outer-vec/{la}", f"{la}.outer({vk}) is not the pairwise action or loses the phase/format", rep)
+            if C is not None and W is not None:
+                lhs = guarded(f"class:compose/{la}*{lb}", "(X*Y)*v", rep, lambda: C * V)
+                rhs = guarded(f"class:compose/{la}*{lb}", "X*(Y*v)", rep, lambda: A * W)
+                if lhs is not None and rhs is not None and not (
+                        close(lhs.data, rhs.data, 1e-8) and is_vec(lhs, np.einsum("...ij,...j->...i", SA @ SB, V.data))):
+                    fail(f"class:compose/{la}*{lb}", f"({la}*{lb})*v != {la}*({lb}*v)", rep)
+# the whole groups (improper elements included): closure data of G.outer(G) and G * v
+for g in SYMS:
+    for backend in (True, False):
+        set_backend(backend)
+        st(f"classes/group={g.name}")
+        SG = smat(g)
+        v = mk_vec((1,))
+        rep = {"group": g.name, "v": v.data.tolist(), "backend": backend}
+        if not (is_rot(g.outer(g), outer_mm(SG, SG)) and is_rot(g.outer(g, lazy=True, progressbar=False), outer_mm(SG, SG))):
+            fail("class:group-outer", f"{g.name}.outer({g.name}) is not the pairwise product of the signed matrices", rep)
+        if not (is_vec(g * v, np.einsum("...ij,...j->...i", SG, v.data)) and is_vec(g.outer(v), outer_mv(SG, v.data))
+                and is_rot(~g, np.swapaxes(SG, -1, -2))):
+            fail("class:group-action", f"{g.name} * v / {g.name}.outer(v) / ~{g.name} differ from the signed matrices", rep)
+set_backend(True)
+
+# ------------------- (5) multiplication by +1/-1 (int and list path) and integer dtype input
+INTQ = [[1, 0, 0, 0], [0, 1, 0, 0], [0, 0, 1, 0], [0, 0, 0, 1], [1, 1, 1, 1], [1, -1, 1, -1], [1, 1, 0, 0], [0, 1, -1, 0],
+        [2, 0, 0, 0], [0, 0, -3, 0], [1, 0, 0, -1]]
+for k in range(24 * REPS):
+    backend = k % 2 == 0
+    set_backend(backend)
+    sa = [(3,), (2, 3), (1,), (3, 1)][k % 4]
+    A = mk_cls(["Rotation", "Orientation", "Misorientation"][k % 3], sa, MODES[(k // 3) % 3], k)
+    SA = smat(A)
+    n = int(np.prod(sa))
+    s_list = [R.choice([1, -1]) for _ in range(sa[-1])]
+    for nm, s, sg in (("+1", 1, np.ones(sa)), ("-1", -1, -np.ones(sa)),
+                      ("list", s_list, np.broadcast_to(np.array(s_list, float), sa))):
+        rep = {"A": rot_json(A), "s": s, "backend": backend}
+        st(f"int/{nm}")
+        X = guarded("int:mul", f"R * {nm}", rep, lambda: A * s)
+        if X is not None and not (is_rot(X, sg[..., None, None] * SA) and close(X.data, A.data, 1e-12)):
+            fail("int:mul", f"R * ({nm}) does not toggle exactly the improper flags of the entries multiplied by -1", rep)
+    # integer-dtype quaternions and vectors (symmetry-operation-like input), all entry points
+    qi = np.array([INTQ[R.randrange(len(INTQ))] for _ in range(n)], dtype=np.int64).reshape(sa + (4,))
+    sb = [(3,), (2, 3), (4,), (1, 2)][k % 4]
+    vi = np.array([[R.randrange(-4, 5) for _ in range(3)] for _ in range(int(np.prod(sb)))], dtype=np.int64).reshape(sb + (3,))
+    Ai = Rotation(qi)
+    Ai.improper = flags_for(sa, MODES[k % 3])
+    Vi = Vector3d(vi) if k % 3 else Miller(uvw=vi, phase=PH_CUB)
+    Si = np.where(Ai.improper[..., None, None], -1.0, 1.0) * qmat(qi / np.linalg.norm(qi, axis=-1, keepdims=True))
+    rep = {"q": qi.tolist(), "imp": Ai.improper.astype(int).tolist(), "v": vi.tolist(), "backend": backend}
+    qi0, vi0, A0 = qi.copy(), vi.copy(), Ai.data.copy()
+    st("int/dtype")
+    for nm, fn, ref in (("mul-vec", lambda: Ai * Vi, None),
+                        ("outer-vec", lambda: Ai.outer(Vi), outer_mv(Si, vi)),
+                        ("outer-vec-lazy", lambda: Ai.outer(Vi, lazy=True, chunk_size=2, progressbar=False), outer_mv(Si, vi)),
+                        ("outer-rot", lambda: Ai.outer(Ai), outer_mm(Si, Si)),
+                        ("mul-rot", lambda: Ai * Ai, Si @ Si), ("invert", lambda: ~Ai, np.swapaxes(Si, -1, -2))):
+        if nm == "mul-vec":
+            try:
+                np.broadcast_shapes(sa, sb)
+            except ValueError:
+                continue
+            ref = np.einsum("...ij,...j->...i", Si, vi.astype(float))
+        X = guarded(f"intdtype:{nm}", f"{nm} with integer-dtype input, shapes {sa},{sb}", rep, fn)
+        if X is None:
+            continue
+        good = is_vec(X, ref) if "vec" in nm else is_rot(X, ref)
+        if not good:
+            fail(f"intdtype:{nm}", f"{nm} with integer-dtype quaternions/vectors differs from the signed-matrix reference "
+                 f"(shapes {sa},{sb})", rep)
+    if not (np.array_equal(vi, vi0) and np.array_equal(qi, qi0) and np.array_equal(Vi.data, vi0)
+            and np.array_equal(Ai.data, A0)):
+        fail("intdtype:input-mutated", "an operation modified its (integer-dtype) operand in place", rep)
+set_backend(True)
+
+# ------------------- (6) triples: associativity with three independently shaped/flagged operands
+TRIPLES = [((3,), (3,), (3,)), ((2, 1), (1, 3), (1,)), ((3, 1), (1, 4), (3, 4)), ((2, 1, 1), (1, 3, 1), (1, 1, 4)),
+           ((1,), (4,), (2, 4)), ((2, 2), (1,), (2, 1)), ((1, 1), (1,), (1, 1, 1)), ((2, 3), (2, 1), (3,))]
+k = 0
+for _rep in range(REPS):
+    for (ma, mb, mc), shp in zip(itertools.product(MODES, MODES, MODES), itertools.cycle(TRIPLES)):
+        k += 1
+        backend = k % 2 == 0
+        set_backend(backend)
+        perm = [(0, 1, 2), (1, 2, 0), (2, 0, 1)][k % 3]
+        sa, sb, sc = (shp[i] for i in perm)
+        A, B, Cc = mk_rot_mode(sa, ma), mk_rot_mode(sb, mb), mk_rot_mode(sc, mc)
+        bs = np.broadcast_shapes(sa, sb, sc)
+        V = mk_vec([bs, (1,), sc][k % 3])
+        rep = {"A": rot_json(A), "B": rot_json(B), "C": rot_json(Cc), "V": V.data.tolist(), "backend": backend}
+        st(f"triple/{ma}x{mb}x{mc}")
+        S3 = smat(A) @ smat(B) @ smat(Cc)
+        L = guarded("triple:assoc", "(R1*R2)*R3", rep, lambda: (A * B) * Cc)
+        Rr = guarded("triple:assoc", "R1*(R2*R3)", rep, lambda: A * (B * Cc))
+        if L is None or Rr is None:
+            continue
+        if not (is_rot(L, S3) and is_rot(Rr, S3) and close(L.data, Rr.data, 1e-9) and np.array_equal(L.improper, Rr.improper)):
+            fail("triple:assoc", f"(R1*R2)*R3 != R1*(R2*R3) or not the product of the three signed matrices "
+                 f"(flags {ma},{mb},{mc}; shapes {sa},{sb},{sc})", rep)
+        ref = np.einsum("...ij,...j->...i", S3, V.data)
+        w1, w2, w3 = L * V, A * (B * (Cc * V)), (A * B) * (Cc * V)
+        if not (is_vec(w1, ref) and is_vec(w2, ref) and is_vec(w3, ref)):
+            fail("triple:action", f"((R1*R2)*R3)*v, R1*(R2*(R3*v)) and (R1*R2)*(R3*v) are not all S1 S2 S3 v "
+                 f"(flags {ma},{mb},{mc}; shapes {sa},{sb},{sc})", rep)
+        inv3 = ~Cc * (~B * ~A)
+        if not is_rot(~L, np.swapaxes(S3, -1, -2)) or not is_rot(inv3, np.swapaxes(S3, -1, -2)):
+            fail("triple:inverse", "~(R1*R2*R3) != ~R3*~R2*~R1 (as signed matrices)", rep)
+set_backend(True)
+
+# ------------------- (7) histories: chains of *, ~, inv(), -, *(-1), outer, reshape, transpose,
+# indexing, squeeze; the signed matrices are tracked alongside and compared after EVERY step
+STEPS = ["mul_r", "mul_l", "invert", "inv", "neg", "int", "outer_r", "outer_l", "reshape", "transpose", "getitem",
+         "squeeze", "mul_r", "mul_l"]
+for k in range(40 * REPS):
+    backend = k % 2 == 0
+    set_backend(backend)
+    s0 = [(3,), (2, 3), (1,), (2, 1, 2), (4, 1)][k % 5]
+    X = mk_rot_mode(s0, MODES[k % 3])
+    S = smat(X)
+    hist = [{"op": "start", "X": rot_json(X)}]
+    st(f"chain/start-ndim={len(s0)}")
+    bad = False
+    for j in range(8):
+        op = STEPS[(k * 5 + j * 3 + R.randrange(3)) % len(STEPS)]
+        sh = tuple(X.shape)
+        ent = {"op": op}
+        try:
+            if op in ("mul_r", "mul_l"):
+                ys = [sh, (1,), sh[-1:], sh[:-1] + (1,)][R.randrange(4)]
+                Y = mk_rot_mode(ys, MODES[R.randrange(3)])
+                ent["Y"] = rot_json(Y)
+                X, S = (X * Y, S @ smat(Y)) if op == "mul_r" else (Y * X, smat(Y) @ S)
+            elif op in ("invert", "inv"):
+                X, S = (~X if op == "invert" else X.inv()), np.swapaxes(S, -1, -2)
+            elif op == "neg":
+                X, S = -X, -S
+            elif op == "int":
+                X, S = X * -1, -S
+            elif op in ("outer_r", "outer_l"):
+                if X.size > 12:
+                    continue
+                Y = mk_rot_mode([(2,), (1,), (1, 2)][R.randrange(3)], MODES[R.randrange(3)])
+                ent["Y"] = rot_json(Y)
+                lazy = R.random() < 0.3
+                ent["lazy"] = lazy
+                if op == "outer_r":
+                    X, S = X.outer(Y, lazy=lazy, chunk_size=2, progressbar=False), outer_mm(S, smat(Y))
+                else:
+                    X, S = Y.outer(X, lazy=lazy, chunk_size=2, progressbar=False), outer_mm(smat(Y), S)
+            elif op == "reshape":
+                n = X.size
+                cands = [(n,), (1, n), (n, 1)] + [(a, n // a) for a in (2, 3) if n % a == 0 and n > a]
+                new = cands[R.randrange(len(cands))]
+                ent["shape"] = new
+                X, S = X.reshape(*new), S.reshape(new + (3, 3))
+            elif op == "transpose":
+                if X.ndim < 2:
+                    continue
+                axes = list(range(X.ndim))
+                R.shuffle(axes)
+                if X.ndim == 2 and R.random() < 0.5:
+                    axes = [1, 0]
+                    X = X.transpose()
+                else:
+                    X = X.transpose(*axes)
+                ent["axes"] = axes
+                S = S.transpose(*axes, X.ndim, X.ndim + 1)
+            elif op == "getitem":
+                kind = R.randrange(4)
+                if kind == 0:
+                    key = R.randrange(sh[0])
+                elif kind == 1:
+                    key = slice(None, None, -1)
+                elif kind == 2 or len(sh) < 2:
+                    m = [R.random() < 0.6 for _ in range(sh[0])]
+                    if not any(m):
+                        m[0] = True
+                    key = np.array(m)
+                else:
+                    key = (slice(None), R.randrange(sh[1]))
+                ent["key"] = str(key.tolist() if isinstance(key, np.ndarray) else key)
+                X = X[key]
+                S = S[key]
+                if S.ndim == 2:
+                    S = S[None]
+            elif op == "squeeze":
+                X = X.squeeze()
+                S = S.reshape(tuple(d for d in S.shape[:-2] if d != 1) + (3, 3))
+                if S.ndim == 2:
+                    S = S[None]
+        except Exception as e:  # noqa
+            hist.append(ent)
+            fail(f"chain:{op}:raises", f"step {op} of a history raises {type(e).__name__}: {e}", {"history": hist, "backend": backend})
+            bad = True
+            break
+        hist.append(ent)
+        st(f"chain/op={op}")
+        if not (isinstance(X, Rotation) and is_rot(X, S)):
+            fail(f"chain:{op}", f"after step {j + 1} ({op}) of a history the rotations (data + improper flags) are not the "
+                 f"tracked signed matrices", {"history": hist, "backend": backend})
+            bad = True
+            break
+    if not bad and X.size:
+        V = mk_vec((1,))
+        if not is_vec(X * V, np.einsum("...ij,...j->...i", S, V.data)):
+            fail("chain:action", "after a history of operations R*v is not the tracked signed matrix applied to v",
+                 {"history": hist, "V": V.data.tolist(), "backend": backend})
+set_backend(True)
+
+# ------------------- (8) from_align_vectors: all four classes, weights, return_rmsd /
+# return_sensitivity (tuple layout), list/tuple input, scaled and degenerate vector sets,
+# both backends
+for k in range(36 * REPS):
+    backend = k % 2 == 0
+    set_backend(backend)
+    kind = ["generic", "scaled", "single", "collinear", "coplanar", "orthonormal"][k % 6]
+    n = {"single": 1, "collinear": 2, "orthonormal": 3}.get(kind, [2, 3, 6][(k // 6) % 3])
+    v = np.array([rand_vec(R) for _ in range(n)])
+    if kind == "collinear":
+        v[1] = v[0] * R.choice([2.5, 0.3])
+    if kind == "coplanar" and n > 2:
+        v[2:] = [v[0] * R.uniform(-2, 2) + v[1] * R.uniform(0.3, 2) for _ in range(n - 2)]
+    if kind == "orthonormal":
+        v = qmat(rand_unit_quat(R)).T
+    q = rand_unit_quat(R)
+    w = np.einsum("ij,nj->ni", qmat(q), v)              # target = exact rotation of the initial set
+    if kind == "scaled":
+        w = w * np.array([R.choice([0.2, 3.0, 11.0]) for _ in range(n)])[:, None]
+    unit = lambda a: a / np.linalg.norm(a, axis=-1, keepdims=True)  # noqa: E731
+    wts = [None, [R.uniform(0.2, 3) for _ in range(n)], None][k % 3] if kind != "collinear" else None
+    rr, rs = [(False, False), (True, False), (False, True), (True, True)][(k // 2) % 4]
+    if kind in ("single", "collinear"):
+        rs = False          # SciPy defines no sensitivity matrix for a single (effective) vector pair
+    cname = ["Quaternion", "Rotation", "Orientation", "Misorientation"][(k // 3) % 4]
+    cl = {"Quaternion": Quaternion, "Rotation": Rotation, "Orientation": Orientation, "Misorientation": Misorientation}[cname]
+    if cname == "Orientation":
+        other, initial = Miller(xyz=w, phase=PH_HEX if k % 2 else PH_CUB), Vector3d(v)
+    elif cname == "Misorientation":
+        other, initial = Miller(xyz=w, phase=PH_HEX), Miller(xyz=v, phase=PH_CUB)
+    elif k % 4 == 1:
+        other, initial = w.tolist(), tuple(map(tuple, v))          # list / tuple input path
+    else:
+        other, initial = Vector3d(w), Vector3d(v)
+    rep = {"class": cname, "kind": kind, "q": q, "v": v.tolist(), "w": w.tolist(), "weights": wts, "return_rmsd": rr,
+           "return_sensitivity": rs, "list_input": isinstance(other, list), "backend": backend}
+    st(f"align/{cname}/{kind}/weights={wts is not None}/rmsd={rr}/sens={rs}")
+    kw = {}
+    if wts is not None:
+        kw["weights"] = wts
+    if rr:
+        kw["return_rmsd"] = True
+    if rs:
+        kw["return_sensitivity"] = True
+    out = guarded(f"align:{cname}", f"{cname}.from_align_vectors({kw})", rep, lambda: cl.from_align_vectors(other, initial, **kw))
+    if out is None:
+        continue
+    parts = list(out) if isinstance(out, tuple) else [out]
+    est = parts[0]
+    lay = len(parts) == 1 + rr + rs and type(est) is cl
+    if lay and rr:
+        lay = np.ndim(parts[1]) == 0 and abs(float(parts[1])) < 1e-6
+    if lay and rs and kind not in ("single", "collinear"):
+        lay = np.shape(parts[-1]) == (3, 3)
+    if not lay:
+        fail("align:return-layout", f"{cname}.from_align_vectors({sorted(kw)}) does not return (estimate[, rmsd ~ 0][, 3x3 "
+             f"sensitivity]) for an exactly alignable set", rep)
+        continue
+    got = est * Vector3d(unit(v))
+    if not close(got.data, unit(w), 1e-6):
+        fail(f"align:{cname}", f"{cname}.from_align_vectors (set: {kind}, weights: {wts is not None}) does not map the initial "
+             f"set onto the target set although an exact rotation exists", rep)
+    if cname == "Orientation" and est.symmetry.name != other.phase.point_group.name:
+        fail("align:symmetry", "Orientation.from_align_vectors does not take the point group of the crystal vectors", rep)
+    if cname == "Misorientation" and [s.name for s in est.symmetry] != [PH_CUB.point_group.name, PH_HEX.point_group.name]:
+        fail("align:symmetry", "Misorientation.from_align_vectors symmetry is not (initial, other) point groups", rep)
+set_backend(True)
+
 emit({"cases": cases, "fails": fails, "strata": strata})
